@@ -7,6 +7,7 @@ import (
 
 	"verif/harness/core"
 	g "verif/harness/dnsgen"
+	"verif/harness/dnsimpl"
 	"verif/harness/dnsops"
 )
 
@@ -15,7 +16,7 @@ var Runner = core.Runner{Gen: Gen, Eval: dnsops.Eval}
 var Eval = dnsops.Eval
 
 func add(c *core.Ctx, class, line string) {
-	if cs := Eval(c, line); cs != nil {
+	if cs := Eval(c, line); cs != nil && !dnsimpl.Skipped(cs.Impl) {
 		cs.Class = class
 		c.Add(*cs)
 	}
@@ -198,10 +199,57 @@ func longViaPointer(r *rand.Rand, head, tail int) ([]byte, int) {
 	return m, at
 }
 
+// NBNSBoundary: node status RDATA on every acceptance boundary.  For NUM_NAMES = n the array needs
+// 1+18n bytes; RDLENGTH takes the values 18n-18 … 18n+2 and 18n+47 (one entry short, one byte short
+// = 18n, exact = 18n+1, with statistics), each as the last bytes of the message (the RDATA copy has
+// no room behind it), followed by a second complete record, followed by stray bytes, and as an
+// RDLENGTH field overwritten on a longer record; the same byte strings go to parseNodeNameArray
+// directly (exact-capacity and roomy backing arrays, see dnsimpl.NodeNames).
+func NBNSBoundary(c *core.Ctx) {
+	r := c.Rnd
+	owner := g.Name{g.NBNSEncode(g.NBName("*"))[1:33]}
+	second := g.RR{Name: owner, Type: g.TypeNBSTAT, Class: 1, Raw: append(append([]byte{1}, g.NBName("SECOND")...), 0x04, 0)}
+	for _, n := range []int{0, 1, 2, 3, 5, 7, 14} {
+		for _, delta := range []int{-37, -19, -18, -17, -3, -2, -1, 0, 1, 2, 46, 47} {
+			rd := g.NodeStatusRData(r, n, delta)
+			if len(rd) == 0 && delta < -1 {
+				continue
+			}
+			add(c, "nbns.names-boundary", "nbns.names "+core.Hex(rd))
+			rr := g.RR{Name: owner, Type: g.TypeNBSTAT, Class: 1, Raw: rd}
+			m := g.Msg{ID: uint16(r.Intn(65536)), Flags: 0x8400, An: []g.RR{rr}}
+			b := g.Build(m, g.Opts{})
+			add(c, "nbns-boundary", "nbns "+core.Hex(b.Bytes))
+			add(c, "nbns-boundary-stray", "nbns "+core.Hex(append(clone(b.Bytes), c.RandBytes(1+r.Intn(40))...)))
+			mq := m
+			mq.Q = []g.Question{{Name: owner, Type: g.TypeNBSTAT, Class: 1}}
+			add(c, "nbns-boundary", "nbns "+core.Hex(g.Build(mq, g.Opts{Compress: true}).Bytes))
+			m2 := m
+			m2.An = []g.RR{rr, second}
+			add(c, "nbns-boundary-second", "nbns "+core.Hex(g.Build(m2, g.Opts{Compress: r.Intn(2) == 0}).Bytes))
+			// the RDLENGTH field alone says where the RDATA ends: a complete record with statistics, field overwritten
+			full := g.NodeStatusRData(r, n, 46)
+			bf := g.Build(g.Msg{Flags: 0x8400, An: []g.RR{{Name: owner, Type: g.TypeNBSTAT, Class: 1, Raw: full}}}, g.Opts{})
+			if l := len(full) - 46 + delta; l >= 0 && len(bf.Marks.RDLen) == 1 {
+				cm := clone(bf.Bytes)
+				off := bf.Marks.RDLen[0]
+				cm[off], cm[off+1] = byte(l>>8), byte(l)
+				add(c, "nbns-boundary-rdlen", "nbns "+core.Hex(cm))
+			}
+		}
+	}
+	for _, l := range []int{1, 2, 3, 19, 37, 18*14 + 1} {
+		rd := append([]byte{255}, g.NodeStatusRData(r, 14, 0)[1:]...)[:l]
+		add(c, "nbns.names-boundary", "nbns.names "+core.Hex(rd))
+		b := g.Build(g.Msg{Flags: 0x8400, An: []g.RR{{Name: owner, Type: g.TypeNBSTAT, Class: 1, Raw: rd}, second}}, g.Opts{})
+		add(c, "nbns-boundary-second", "nbns "+core.Hex(b.Bytes))
+	}
+}
+
 // Gen is the C17 correspondence run.
 func Gen(c *core.Ctx) {
 	r := c.Rnd
-	c.Res.Rule = "dns.name/dns.question: names of 1..127 labels (1..63 bytes) from the independent builder, plain / compressed / through pointer chains of depth 1..300, at every name offset of built messages, every truncation, pointer / label-length / count / RDLENGTH corruption, names assembled through pointers around the 255 byte limit, random mutation; mdns/nbns/nbns.names: well-formed mDNS and NBNS messages (names returned vs reference decoder); dns.rrs/dns.answers/dns.process: random responses (A, AAAA, CNAME chains, PTR, MX, TXT, unassigned types, records in all sections) singly and in sequences of 1..3 responses, with the same closure; merge/hostupd: random entries and update sequences from the five sources over a small value pool; dns.encname/dns.encquery: valid and boundary names. distinct = distinct protocol lines; non-trivial = the input passed the first length / offset test"
+	c.Res.Rule = "dns.name/dns.question: names of 1..127 labels (1..63 bytes) from the independent builder, plain / compressed / through pointer chains of depth 1..300, at every name offset of built messages, every truncation, pointer / label-length / count / RDLENGTH corruption, names assembled through pointers around the 255 byte limit, random mutation; mdns/nbns/nbns.names: well-formed mDNS and NBNS messages (names returned vs reference decoder), node status RDATA of every length around 1+18*NUM_NAMES (one entry / one byte short, exact, with statistics; last in the message, followed by a record / stray bytes, RDLENGTH overwritten; exact-capacity and roomy backing arrays); dns.rrs/dns.answers/dns.process: random responses (A, AAAA, CNAME chains, PTR, MX, TXT, unassigned types, records in all sections) singly and in sequences of 1..3 responses (also malformed first, then well-formed, on the same handler; after every message the handler is probed with DNSFind / DNSExist / an empty response), with the same closure; merge/hostupd: random entries and update sequences from the five sources over a small value pool; dns.encname/dns.encquery: valid and boundary names. distinct = distinct protocol lines; non-trivial = the input passed the first length / offset test"
 	for _, l := range c.CorpusLines() {
 		add(c, "corpus", l)
 	}
@@ -348,6 +396,17 @@ func Gen(c *core.Ctx) {
 		if i%4 == 0 {
 			add(c, "nbns.names", "nbns.names "+core.Hex(g.NodeArray(r, r.Intn(6))))
 		}
+	}
+	NBNSBoundary(c)
+	// a rejected message must leave the handler usable: malformed first, then a good one for the same name
+	for i, n := 0, c.Scale(150, 4000); i < n; i++ {
+		qn := g.HostName(r, []string{"example.com", "facebook.com", "local"}[r.Intn(3)])
+		b := g.Build(RandResponse(r, qn, ipPool), randOpts(r))
+		b2 := g.Build(RandResponse(r, qn, ipPool), randOpts(r))
+		cs := Corruptions(r, b, false)
+		add(c, "process-seq-bad-first", processLine(cs[r.Intn(len(cs))], b2.Bytes))
+		add(c, "process-seq-bad-first", processLine(b.Bytes[:len(b.Bytes)-1-r.Intn(len(b.Bytes)/2)], b2.Bytes))
+		add(c, "process-seq-bad-first", processLine(Mutate(r, b.Bytes), b2.Bytes, b.Bytes))
 	}
 
 	// E. merge algebra and Update*Name sequences
